@@ -12,11 +12,21 @@ prop("C04", "exploration",
      "as the forest's object or a separately parsed copy; requested name none / one of the leaf's / any of a 14-name pool with same "
      "label-other type, case variants, empty labels, nil label with non-zero type; clock T0, first and last instant of the common "
      "window, or a chain member's IssuedAt-1s / IssuedAt / IssuedAt+1ns / ExpiresAt-1s / ExpiresAt-1ns / ExpiresAt / ExpiresAt+1s, in "
-     "three time zones), VerifyParent on (child, named parent) or random pairs, AddCertificate. Every VerifyLeaf answer must equal "
+     "three time zones), VerifyParent on (child, named parent) or random pairs, AddCertificate; one step in four is preceded by "
+     "something a holder of PARSED certificates may do with them: marshal+scribble (Marshal a chain member - the forest's object or "
+     "its separately parsed copy - and overwrite the returned bytes, all of them or one drawn bit: the serialisation is documented "
+     "as newly allocated, so every later answer about that certificate and chains through it must be unchanged) or modify (parse a "
+     "certificate afresh, change one field of the object - type, IssuedAt, ExpiresAt, a name added / dropped / replaced, public key, "
+     "parent fingerprint, or a change that leaves the wire content as it was: sub-second shift of both times, every field assigned "
+     "its own value - Marshal, ReadFrom; the resulting object becomes a new forest member whose ground truth is the CHANGED content "
+     "under the signature the original already carried, and the following VerifyLeaf / VerifyParent / AddCertificate step uses it as "
+     "leaf, child, presented or stored intermediate; the model therefore demands rejection wherever that signature matters unless "
+     "nothing changed). Every VerifyLeaf answer must equal "
      "the stateless model written from the property statement (both directions), every VerifyParent answer the type-pairing / "
      "fingerprint / Ed25519 predicate. Second generator: chains made only by SelfSignRoot, IssueIntermediate / issue and IssueLeafAt "
      "(issuance instants and durations on and around the parent's bounds), verified in memory and after Marshal+ReadFrom at the "
-     "bounds of all three windows. Enumerations: every single-bit flip and raw fixed-field overwrite of the leaf, intermediate and "
+     "bounds of all three windows; in 5 of 8 cases one to three chain members in use are marshalled once more before the probes and "
+     "that serialisation is overwritten by its caller. Enumerations: every single-bit flip and raw fixed-field overwrite of the leaf, intermediate and "
      "root bytes of verifying chains in 3..5 store/presentation layouts; every re-signed and stale-signed single-field substitution "
      "(type, issuer link / key, public key, names, each time bound) in place and side by side x 5 stores, judged by the model. "
      "Non-trivial = case with at least one full accept or near miss (exactly one clause of the predicate false); for the bit-flip "
